@@ -133,10 +133,14 @@ def _work(job):
 
 
 def discharge(axioms, obls, timeout_ms=10000, procs=None):
-    """-> list of dicts (id, kind, verdict in discharged|refuted|undecided|covered|vacuous, solver, seconds, note, model)."""
+    """-> list of dicts (id, kind, verdict in discharged|refuted|undecided|covered|vacuous, solver, seconds, note, model).
+    `axioms` is either one list for all obligations or a list of lists (one per obligation)."""
     jobs = []
     results = [None] * len(obls)
+    per_ob = bool(axioms) and isinstance(axioms[0], list) and len(axioms) == len(obls)
+    all_axioms = axioms
     for i, ob in enumerate(obls):
+        axioms = all_axioms[i] if per_ob else all_axioms
         if not ob.expect_sat and z3.is_true(ob.goal):
             results[i] = dict(id=ob.id, kind=ob.kind, verdict="discharged", solver="simplifier", seconds=0.0, note=ob.note, line=ob.line)
             continue
